@@ -178,7 +178,8 @@ void Search::stop()
 void Search::go()
 {
     init_search();
-    stop_search = false;
+    // stop_search is false since construction; resetting it here would lose a
+    // stop() that arrived before the search thread got this far
     _start_time = std::chrono::steady_clock::now();
 
     // check if there is only one move to make
